@@ -235,11 +235,31 @@ func (sp *specParser) expr() (*SExpr, error) {
 		if err := sp.expect("::"); err != nil {
 			return nil, err
 		}
+		// optional explicit trigger: '{' expr {',' expr} '}' (a multi-pattern)
+		// (several groups are alternative patterns)
+		var trig []*SExpr
+		for sp.accept("{") {
+			grp := &SExpr{Op: "trig"}
+			for {
+				te, err := sp.tern()
+				if err != nil {
+					return nil, err
+				}
+				grp.Args = append(grp.Args, te)
+				if !sp.accept(",") {
+					break
+				}
+			}
+			if err := sp.expect("}"); err != nil {
+				return nil, err
+			}
+			trig = append(trig, grp)
+		}
 		body, err := sp.expr()
 		if err != nil {
 			return nil, err
 		}
-		return &SExpr{Op: "quant", Name: t.text, Binders: bs, Args: []*SExpr{body}}, nil
+		return &SExpr{Op: "quant", Name: t.text, Binders: bs, Args: append([]*SExpr{body}, trig...)}, nil
 	}
 	return sp.tern()
 }
